@@ -2,6 +2,18 @@
 import json, os
 V = os.path.dirname(os.path.dirname(os.path.abspath(__file__)))
 CLAIMED = {
+ "C09": dict(
+   text="Proof: a linear spline through knots that are positive, at least the table minimum and not above their progenitor stays so for EVERY mass between the first and "
+        "last knot (gaps included) and passes through its knots; the integer checks the kernel evaluates on each regenerated table imply those knot conditions with "
+        "lo = table minimum = declared BH_mf.lower; the three classes are contiguous ranges in the order WD < NS < BH and predict/predict_type use the same boundaries; "
+        "a validated linear prescription stays in (0, mi]. Every run regenerates: the type-14 rows of the BH tables (quick: seeded sample incl. each family's ends and "
+        "zero files; thorough: all 1186) checked by vm_compute; the 7 WD polynomials, bounded for every real mass in [0.7, m_max] by the interval tactic against the "
+        "maximum the implementation declares; the analytic defaults scraped from the source, bounded by interval. Float instance vs IFMR.predict/predict_type on knots, "
+        "gaps and class boundaries +- ulp; oracle on dense grids incl. ulp-neighbourhoods of the WD polynomial's extrema.",
+   design="8/C09", technique="Coq proofs (list induction, convexity) + per-run regenerated data obligations (vm_compute, interval) + float correspondence + oracle",
+   note="Trusted: Coq kernel; Reals axioms; Interval library (primitive-integer axioms listed by Print Assumptions); translators in harness/props/C09.py; FITPACK linear spline "
+        "modelled as piecewise-linear interpolation (1e-12); numpy's root finder not modelled (its output is checked). Quick tier proves a sample of tables only."),
+
  "C15": dict(
    text="Proof: with erf's defining facts as explicit hypotheses (erf is not in Coq's library), the closed-form cdf IS the integral of the Maxwellian pdf from 0 to v, lies in "
         "[0,1] and is non-decreasing in v; full fallback gives 1; the sigmoid lies in [0,1]; linear interpolation of the fallback fraction stays between its neighbours; "
